@@ -9,12 +9,12 @@ def plan(tier):
         I.append(inst(f"elliptic-fixed-point[n=2,representative sign={s}]", 'harness.c15', 'elliptic_fixed_point', dict(n=2, rep_sign=s), weight=10, timeout_s=900))
     for kind in ('rotation', 'loxodromic'):
         I.append(inst(f"non-reflection-rejected[{kind}]", 'harness.c15', 'non_reflection_rejected', dict(kind=kind), weight=8, timeout_s=900))
-    if not q:
-        # attempted under a wall-clock cap (frame completion in H^2 is expensive); reported inconclusive if they do not finish
-        for k in (0, 1):
-            fx = {"_k1_w": 0, "_k1_e0": 1 if k == 0 else -1, "_k1_e1": 1}
-            I.append(inst(f"reflection_across[n=2,kernel-case={k}]", 'harness.c15', 'reflection', dict(n=2), opts=dict(fix=fx), weight=400, timeout_s=3000))
-        I.append(inst("from_reflection[n=2]", 'harness.c15', 'from_reflection', dict(n=2), opts=dict(fix={"eig_perm": 0}), weight=400, timeout_s=3000))
+    for k in ((0, 3) if q else range(8)):
+        fx = {"_k1_w": k // 4, "_k1_e0": 1 if (k // 2) % 2 == 0 else -1, "_k1_e1": 1 if k % 2 == 0 else -1}
+        I.append(inst(f"reflection_across[n=2,kernel-case={k}]", 'harness.c15', 'reflection', dict(n=2), opts=dict(fix=fx), weight=80, timeout_s=1500))
+    for perm in ((0,) if q else range(6)):
+        fx = {"eig_perm": perm, "_k1_w": 0, "_k1_e0": 1, "_k1_e1": 1}
+        I.append(inst(f"from_reflection[n=2,eigenvalue-order={perm}]", 'harness.c15', 'from_reflection', dict(n=2), opts=dict(fix=fx), weight=300, timeout_s=2400))
     return dict(
         instances=I,
         explanation=("bounded symbolic verification with a nondeterministic eigen-decomposition stub: the isometry is built as C L C^-1 (L standard "
@@ -28,7 +28,6 @@ def plan(tier):
         bounds=dict(dimension="H^2 (simple spectrum)", conjugators="standard_rotation(theta) for loxodromics, standard_loxodromic(mu) for elliptics", lam="all lambda > 1, all rotation angles except 0 and pi"),
         outside=["parabolic isometries (not diagonalisable: no eigen stub)", "dimension >= 3 (eigenvalue 1 is repeated: the simple-spectrum stub does not apply)",
                  "composite isometries (the eigen stub is unit-only), hence the composite rejection rule of from_reflection",
-                 "reflection_across / from_reflection round trip: attempted only in the thorough tier under a 50 min cap (frame completion in H^2)",
                  "reflections arising from Coxeter representations (hyperbolic_rep is outside, see C08)"],
         assumptions=["eigenvector norms in [1/2, 2]; real eigenvectors for real eigenvalues (LAPACK contract)", "lambda > 1; sin(theta) != 0"],
     )
